@@ -10,9 +10,16 @@
 // plugin is constructed (the detector is still disabled).
 // While the overloads are on the harness itself allocates nothing (everything is sized before), so that every tracked block is
 // one the scenario asked for -- or one CppUTest makes for itself.
+// Further MemoryLeakWarningPlugin instances (:pn j shared / :pd j): constructed by the scenario's statements wherever they stand
+// (placement new into static storage, so that the harness still allocates nothing), each on a private MemoryLeakDetector made
+// before the overloads are switched on, or on the runner's detector (mode 0: handed over, mode 1: NULL = the global one).
+// :pa/:pf/:pr go through the private detector, :pb/:pe call the instance's pre/postTestAction with a TestResult of its own,
+// :pq its FinalReport(k).  firstPlugin_ is NULL when a scenario starts (a fresh process) and is then left to the code under test:
+// EXPECT_N_LEAKS / IGNORE_ALL_LEAKS_IN_TEST reach whatever instance it points to.
 // Scenario / observation grammar: ocaml/c07_driver.ml.
 #include "hlib.h"
 #include <algorithm>
+#include <new>
 #define private public
 #define protected public
 #include "CppUTest/TestHarness.h"
@@ -30,7 +37,7 @@
 #include <unistd.h>
 using namespace hl;
 
-struct Stmt { char kind; unsigned id; size_t size; unsigned k; size_t n; };
+struct Stmt { char kind; unsigned id; size_t size; unsigned k; size_t n; unsigned j; };
 struct TestDef { int idx; std::vector<Stmt> before, ipre, ph[3], ipost; char name[16]; };
 
 static const unsigned MAXID = 4096, MAXALLOC = 1 << 16, MAXTESTS = 4096;
@@ -81,6 +88,114 @@ static void doRealloc(const Stmt& s)
     if (!p) { fprintf(stderr, "harness: reallocation failed\n"); exit(3); }
     gPtr[s.id] = p; gKind[s.id] = 2;
 }
+
+// ---------------------------------------------------------------- further plugin instances
+static const unsigned NSLOT = 8, MAXINC = 256, MAXEV = 4096;
+class LocalReporter : public MemoryLeakFailure {
+public:
+    void fail(char*) CPPUTEST_OVERRIDE { gMisuse++; }
+};
+class SecOutput : public StringBufferTestOutput {                     // output of an instance's own TestResult
+public:
+    const char* last; unsigned seen;
+    SecOutput() : last(NULLPTR), seen(0) {}
+    void printFailure(const TestFailure& f) CPPUTEST_OVERRIDE
+    {
+        SimpleString msg = f.getMessage();
+        const char* m = msg.asCharString();
+        seen++;
+        if (strstr(m, "Memory leak(s) found") || strstr(m, "No memory leaks were detected")) {
+            size_t n = strlen(m) + 1;
+            if (gArenaUsed + n > ARENA) { fprintf(stderr, "harness: text arena exhausted\n"); exit(3); }
+            memcpy(gArena + gArenaUsed, m, n); last = gArena + gArenaUsed; gArenaUsed += n;
+        }
+    }
+};
+struct Inc {                                                          // one constructed instance with a private detector
+    MemoryLeakDetector* det; SecOutput* out; TestResult* res;
+    void** ptr; unsigned* numOf; size_t allocs;
+};
+struct Slot { MemoryLeakWarningPlugin* plug; Inc* inc; };
+struct Event { int kind; unsigned j; unsigned nfail, nleak; const char* text; Inc* inc; };
+static Inc gInc[MAXINC]; static unsigned gIncMade, gIncUsed;
+static Slot gSlot[NSLOT];
+alignas(64) static unsigned char gPlugMem[NSLOT][sizeof(MemoryLeakWarningPlugin)];
+static Event gEv[MAXEV]; static unsigned gNEv;
+static UtestShell* gSecShell;
+
+static Slot& slotOf(unsigned j, bool wantAlive)
+{
+    if (j >= NSLOT || (gSlot[j].plug != NULLPTR) != wantAlive) { fprintf(stderr, "harness: plugin slot %x\n", j); exit(3); }
+    return gSlot[j];
+}
+static Inc& incOf(unsigned j)
+{
+    Slot& s = slotOf(j, true);
+    if (!s.inc) { fprintf(stderr, "harness: plugin slot %x shares the runner's detector\n", j); exit(3); }
+    return *s.inc;
+}
+static const char* keep(const char* txt)
+{
+    size_t n = strlen(txt) + 1;
+    if (gArenaUsed + n > ARENA) { fprintf(stderr, "harness: text arena exhausted\n"); exit(3); }
+    memcpy(gArena + gArenaUsed, txt, n); gArenaUsed += n;
+    return gArena + gArenaUsed - n;
+}
+static void doSec(const Stmt& s)
+{
+    switch (s.kind) {
+    case 'N': {
+        Slot& sl = slotOf(s.j, false);
+        MemoryLeakDetector* d;
+        if (s.k) { sl.inc = NULLPTR; d = gMode == 0 ? gDet : NULLPTR; }        // the runner's detector: handed over / "the global one"
+        else {
+            if (gIncUsed >= gIncMade) { fprintf(stderr, "harness: no private detector left\n"); exit(3); }
+            sl.inc = &gInc[gIncUsed++]; d = sl.inc->det;
+        }
+        sl.plug = new (gPlugMem[s.j]) MemoryLeakWarningPlugin("VerifOther", d);
+        break; }
+    case 'D': { Slot& sl = slotOf(s.j, true); sl.plug->~MemoryLeakWarningPlugin(); sl.plug = NULLPTR; break; }   // the private detector outlives it
+    case 'A': {
+        Inc& in = incOf(s.j);
+        if (in.ptr[s.id] || in.allocs >= MAXALLOC) { fprintf(stderr, "harness: private block id %x in use\n", s.id); exit(3); }
+        in.numOf[in.allocs++] = in.det->getCurrentAllocationNumber();
+        char* p = gSlot[s.j].plug->getMemoryLeakDetector()->allocMemory(getCurrentMallocAllocator(), s.size, "sec.cpp", 7, true);
+        if (!p) { fprintf(stderr, "harness: allocation failed\n"); exit(3); }
+        memset(p, 'B', s.size); in.ptr[s.id] = p;
+        break; }
+    case 'F': {
+        Inc& in = incOf(s.j); void* p = in.ptr[s.id]; in.ptr[s.id] = NULLPTR;
+        gSlot[s.j].plug->getMemoryLeakDetector()->deallocMemory(getCurrentMallocAllocator(), p, "sec.cpp", 8, true);
+        break; }
+    case 'R': {
+        Inc& in = incOf(s.j);
+        if (in.allocs >= MAXALLOC) { fprintf(stderr, "harness: too many private allocations\n"); exit(3); }
+        in.numOf[in.allocs++] = in.det->getCurrentAllocationNumber();
+        char* p = gSlot[s.j].plug->getMemoryLeakDetector()->reallocMemory(getCurrentMallocAllocator(), (char*) in.ptr[s.id], s.size, "sec.cpp", 9, true);
+        if (!p) { fprintf(stderr, "harness: reallocation failed\n"); exit(3); }
+        in.ptr[s.id] = p;
+        break; }
+    case 'B': { Inc& in = incOf(s.j); gSlot[s.j].plug->preTestAction(*gSecShell, *in.res); break; }
+    case 'E': {
+        Inc& in = incOf(s.j);
+        if (gNEv >= MAXEV) { fprintf(stderr, "harness: too many events\n"); exit(3); }
+        size_t f0 = in.res->getFailureCount(); in.out->last = NULLPTR;
+        gSlot[s.j].plug->postTestAction(*gSecShell, *in.res);
+        Event& e = gEv[gNEv++]; e.kind = 0; e.j = s.j; e.inc = &in;
+        e.nfail = (unsigned) (in.res->getFailureCount() - f0); e.text = in.out->last; e.nleak = e.text ? 1 : 0;
+        break; }
+    case 'Q': {
+        Inc& in = incOf(s.j);
+        if (gNEv >= MAXEV) { fprintf(stderr, "harness: too many events\n"); exit(3); }
+        // report() appends to the detector's text buffer, which only startChecking() empties: start from an empty buffer without
+        // touching the period
+        gSlot[s.j].plug->getMemoryLeakDetector()->outputBuffer_.clear();
+        Event& e = gEv[gNEv++]; e.kind = 1; e.j = s.j; e.inc = &in; e.nfail = e.nleak = 0;
+        e.text = keep(gSlot[s.j].plug->FinalReport(s.n));
+        break; }
+    default: fprintf(stderr, "harness: statement %c\n", s.kind); exit(3);
+    }
+}
 static void execList(const std::vector<Stmt>& v, UtestShell* pluginTest = NULLPTR, TestResult* pluginResult = NULLPTR)
 {
     for (size_t i = 0; i < v.size(); i++) {
@@ -95,7 +210,7 @@ static void execList(const std::vector<Stmt>& v, UtestShell* pluginTest = NULLPT
             break;
         case 'e': EXPECT_N_LEAKS(s.n); break;
         case 'i': IGNORE_ALL_LEAKS_IN_TEST(); break;
-        default: fprintf(stderr, "harness: statement %c\n", s.kind); exit(3);
+        default: doSec(s);
         }
     }
 }
@@ -126,10 +241,6 @@ public:
     void preTestAction(UtestShell& t, TestResult& r) CPPUTEST_OVERRIDE { execList(static_cast<ScriptedShell&>(t).d_->ipre, &t, &r); }
     void postTestAction(UtestShell& t, TestResult& r) CPPUTEST_OVERRIDE { execList(static_cast<ScriptedShell&>(t).d_->ipost, &t, &r); }
 };
-class LocalReporter : public MemoryLeakFailure {
-public:
-    void fail(char*) CPPUTEST_OVERRIDE { gMisuse++; }
-};
 class RecordingOutput : public StringBufferTestOutput {
 public:
     void printFailure(const TestFailure& f) CPPUTEST_OVERRIDE
@@ -151,8 +262,9 @@ public:
 };
 
 struct Ent { unsigned long long num, size; };
-static void parseReport(const char* txt, Out& o)
+static void parseReport(const char* txt, Out& o, const unsigned* numOf = gNumOf, size_t nAllocs = (size_t) -1)
 {
+    if (nAllocs == (size_t) -1) nAllocs = gAllocs;
     bool noleaks = strstr(txt, "No memory leaks were detected") != nullptr;
     bool many = strstr(txt, "Too many memory leaks to report") != nullptr;
     long total = 0;
@@ -163,7 +275,7 @@ static void parseReport(const char* txt, Out& o)
         unsigned number; unsigned long size; int n = -1;
         if (sscanf(p, "Alloc num (%u) Leak size: %lu Allocated at:%n", &number, &size, &n) != 2 || n < 0) continue;
         Ent e; e.num = 0xfffff; e.size = size;
-        for (size_t k = 0; k < gAllocs; k++) if (gNumOf[k] == number) { e.num = k + 1; break; }
+        for (size_t k = 0; k < nAllocs; k++) if (numOf[k] == number) { e.num = k + 1; break; }
         es.push_back(e);
     }
     std::sort(es.begin(), es.end(), [](const Ent& a, const Ent& b) { return a.num != b.num ? a.num < b.num : a.size < b.size; });
@@ -171,11 +283,23 @@ static void parseReport(const char* txt, Out& o)
     for (size_t k = 0; k < es.size(); k++) o << hx(es[k].num) << hx(es[k].size);
 }
 
+static unsigned gWantInc;
 static void readStmts(Toks& t, std::vector<Stmt>& v)
 {
     int n = t.n();
     for (int k = 0; k < n; k++) {
-        Stmt s; s.kind = t.sym()[0]; s.id = 0; s.size = 0; s.k = 0; s.n = 0;
+        Stmt s; std::string sy = t.sym(); s.kind = sy[0]; s.id = 0; s.size = 0; s.k = 0; s.n = 0; s.j = 0;
+        if (s.kind == 'p') {
+            char c = sy.size() > 1 ? sy[1] : '?';
+            s.kind = c == 'n' ? 'N' : c == 'd' ? 'D' : c == 'a' ? 'A' : c == 'f' ? 'F' : c == 'r' ? 'R' : c == 'b' ? 'B' : c == 'e' ? 'E' : c == 'q' ? 'Q' : '?';
+            s.j = (unsigned) t.u();
+            if (s.kind == 'N') { s.k = t.u() ? 1 : 0; if (!s.k) gWantInc++; }
+            else if (s.kind == 'A' || s.kind == 'R') { s.id = (unsigned) t.u(); s.size = (size_t) t.u(); }
+            else if (s.kind == 'F') s.id = (unsigned) t.u();
+            else if (s.kind == 'Q') s.n = (size_t) t.u();
+            if (s.j >= NSLOT || s.id >= MAXID || s.size > 4096) { fprintf(stderr, "harness: statement out of range\n"); exit(3); }
+            v.push_back(s); continue;
+        }
         if (s.kind == 'a') { s.id = (unsigned) t.u(); s.size = (size_t) t.u(); s.k = (unsigned) t.u(); }
         else if (s.kind == 'f') s.id = (unsigned) t.u();
         else if (s.kind == 'r') { s.id = (unsigned) t.u(); s.size = (size_t) t.u(); }
@@ -194,7 +318,7 @@ int main()
     gArena = (char*) malloc(ARENA);
     Toks t; Out o;
     while (readline(t)) {
-        gMode = t.n(); size_t tbd = (size_t) t.u();
+        gMode = t.n(); size_t tbd = (size_t) t.u(); gWantInc = 0;
         std::vector<Stmt> pre; readStmts(t, pre);
         int nt = t.n();
         if (nt < 0 || nt >= (int) MAXTESTS) { fprintf(stderr, "harness: too many tests\n"); exit(3); }
@@ -212,6 +336,16 @@ int main()
         memset(gFail, 0, sizeof gFail); memset(gLeak, 0, sizeof gLeak);
 
         LocalReporter localRep;
+        // everything the further instances need is made now, while the overloads are off
+        if (gWantInc > MAXINC) { fprintf(stderr, "harness: too many plugin instances\n"); exit(3); }
+        for (gIncMade = 0; gIncMade < gWantInc; gIncMade++) {
+            Inc& in = gInc[gIncMade];
+            in.det = new MemoryLeakDetector(&localRep); in.out = new SecOutput; in.res = new TestResult(*in.out);
+            in.ptr = (void**) calloc(MAXID, sizeof(void*)); in.numOf = (unsigned*) calloc(MAXALLOC, sizeof(unsigned)); in.allocs = 0;
+        }
+        gIncUsed = 0; gNEv = 0; memset(gSlot, 0, sizeof gSlot);
+        if (!gSecShell) gSecShell = new UtestShell("SG", "other", "sec.cpp", 1);
+        MemoryLeakWarningPlugin::firstPlugin_ = NULLPTR;                       // a fresh process
         gDet = new MemoryLeakDetector(gMode == 0 ? (MemoryLeakFailure*) &localRep : origRep);
         if (gMode != 0) MemoryLeakWarningPlugin::setGlobalDetector(gDet, origRep);
         size_t failures = 0; const char* finalText = "";
@@ -225,8 +359,7 @@ int main()
 
             MemoryLeakWarningPlugin::turnOnDefaultNotThreadSafeNewDeleteOverloads();
             execList(pre);                                                     // the detector is still in period `disabled`
-            MemoryLeakWarningPlugin leak("VerifLeak", gMode == 0 ? gDet : NULLPTR);
-            MemoryLeakWarningPlugin::firstPlugin_ = &leak;                     // what EXPECT_N_LEAKS / IGNORE_ALL_LEAKS_IN_TEST reach
+            MemoryLeakWarningPlugin leak("VerifLeak", gMode == 0 ? gDet : NULLPTR);   // the runner's plugin: the first one of the process
             reg.installPlugin(&inner); reg.installPlugin(&leak); reg.installPlugin(&before);   // chain: before -> leak -> inner
             reg.runAllTests(result);
             execList(tail);
@@ -254,12 +387,30 @@ int main()
             o << hx(stray);
             if (finalText[0] == 0) o << "1" << "0" << "0" << "0" << "0";
             else { o << "0"; parseReport(finalText, o); }
+            // the further instances: what their postTestAction added / what their FinalReport said, in the order it happened
+            o << hx(gNEv);
+            for (unsigned k = 0; k < gNEv; k++) {
+                const Event& e = gEv[k];
+                o << (e.kind ? "1" : "0") << hx(e.j);
+                if (e.kind == 0) {
+                    o << hx(e.nfail) << hx(e.nleak);
+                    if (e.text) parseReport(e.text, o, e.inc->numOf, e.inc->allocs); else o << "0" << "0" << "0" << "0";
+                } else if (e.text[0] == 0) o << "1" << "0" << "0" << "0" << "0";
+                else { o << "0"; parseReport(e.text, o, e.inc->numOf, e.inc->allocs); }
+            }
+            for (unsigned j = 0; j < NSLOT; j++) if (gSlot[j].plug) { gSlot[j].plug->~MemoryLeakWarningPlugin(); gSlot[j].plug = NULLPTR; }
             MemoryLeakWarningPlugin::firstPlugin_ = NULLPTR;
             reg.resetPlugins();
             for (int i = 0; i < nt; i++) delete shells[i];
         }
         if (gMode != 0) MemoryLeakWarningPlugin::setGlobalDetector(origDet, origRep);
         delete gDet; gDet = NULLPTR;
+        for (unsigned k = 0; k < gIncMade; k++) {
+            Inc& in = gInc[k];
+            for (unsigned id = 0; id < MAXID; id++)
+                if (in.ptr[id]) in.det->deallocMemory(getCurrentMallocAllocator(), (char*) in.ptr[id], "sec.cpp", 8, true);
+            delete in.res; delete in.out; delete in.det; free(in.ptr); free(in.numOf);
+        }
         o.flush();
     }
     fflush(stdout);
